@@ -497,6 +497,18 @@ func parseTrailer(t *protocol.Trailer, buf []byte) (int, error) {
 		buf = buf[skip:]
 	}
 
+	// Scan once without storing anything: a value must only be stored when the whole
+	// trailer section is buffered, a value taken from an incomplete (e.g. folded)
+	// line could not be replaced by the retry.
+	var probe HeaderScanner
+	probe.B = buf
+	probe.DisableNormalizing = t.IsDisableNormalizing()
+	for probe.Next() {
+	}
+	if probe.Err != nil {
+		return 0, probe.Err
+	}
+
 	var s HeaderScanner
 	s.B = buf
 	s.DisableNormalizing = t.IsDisableNormalizing()
